@@ -68,6 +68,15 @@ func DeRefPointer(t reflect.Type) reflect.Type {
 	return t
 }
 
+// deRefPointers strips every pointer level of the type.
+func deRefPointers(t reflect.Type) reflect.Type {
+	for t.Kind() == reflect.Ptr {
+		t = t.Elem()
+	}
+
+	return t
+}
+
 func checkDecodeDestination(obj any, value reflect.Value) error {
 	if !value.IsValid() {
 		return ierrors.New("invalid value for destination")
